@@ -400,8 +400,73 @@ func c16NilResults(id string, n, fixedPool int, random bool) core.Scenario {
 	}}
 }
 
+// c16Goexit: one application of f ends its goroutine with runtime.Goexit (what t.FailNow / t.Fatal / t.Skip do inside a
+// callback). What happens to that element's slot and to the worker's share is not specified; decided here is only that
+// the call still RETURNS once every application has ended, that f is applied at most once per element and that no
+// result is invented (every result is f(x) of an element, or the zero value).
+func c16Goexit(id string, n, fixedPool int, random bool, bad int) core.Scenario {
+	return core.Scenario{ID: id, Class: "PMap.goexit", Run: func(c *core.Ctx) {
+		rep := map[string]any{"scenario": id, "len": n, "fixed_pool": fixedPool, "random_order": random, "goexit_at_element": bad}
+		c.Eval(1)
+		c.Distinct(id)
+		list := make([]int, n)
+		for i := range list {
+			list[i] = i
+		}
+		calls := make([]atomic.Int32, n)
+		var total atomic.Int64
+		done := make(chan struct{})
+		var res []int
+		var pv any
+		go func() {
+			defer close(done)
+			pv, _ = core.Catch(func() {
+				res = fpgo.PMap(func(x int) int {
+					calls[x].Add(1)
+					total.Add(1)
+					if x == bad {
+						runtime.Goexit()
+					}
+					return x*10 + 7
+				}, &fpgo.PMapOption{FixedPool: fixedPool, RandomOrder: random}, list...)
+			})
+		}()
+		v, dump := core.AwaitOrStuck(done, 2*time.Second, 60*time.Second, func() int64 { return total.Load() })
+		if v == "stuck" {
+			rep["goroutines"] = core.RepoGoroutineSummary(dump)
+			c.Violationf("PMap:does-not-return", rep, "PMap(len %d, FixedPool %d, RandomOrder %v) where the application to element %d ends its goroutine with runtime.Goexit never returned although every started application has ended", n, fixedPool, random, bad)
+			return
+		}
+		if v != "done" {
+			c.Inconclusive("watchdog in " + id)
+			return
+		}
+		if pv != nil {
+			c.Violationf("PMap:panic:"+core.NormalizePanic(fmt.Sprint(pv)), rep, "PMap with a callback that calls runtime.Goexit panics in the caller: %v", pv)
+			return
+		}
+		for i := range calls {
+			if calls[i].Load() > 1 {
+				c.Violationf("PMap:f-applied-not-once", rep, "f was applied %d times to element %d", calls[i].Load(), i)
+			}
+		}
+		for _, r := range res {
+			if r != 0 && (r%10 != 7 || r/10 < 0 || r/10 >= n || r/10 == bad) {
+				c.Violationf("PMap:invented-result", rep, "result %d is neither the zero value nor f(x) of an element whose application returned", r)
+			}
+		}
+	}}
+}
+
 func c16Scenarios(c *core.Ctx, race bool) []core.Scenario {
 	var out []core.Scenario
+	for _, fp := range []int{0, 1, 2, 3, 6, 9} {
+		for _, random := range []bool{false, true} {
+			for _, bad := range []int{0, 3, 5} {
+				out = append(out, c16Goexit(fmt.Sprintf("goexit-fp%d-rnd%v-bad%d-race%v", fp, random, bad, race), 6, fp, random, bad))
+			}
+		}
+	}
 	for _, n := range []int{1, 2, 3, 8, 33} {
 		for _, fp := range []int{0, 1, 2, 3, n} {
 			for _, random := range []bool{false, true} {
